@@ -64,6 +64,7 @@ class Session:
         self.history = []
         self.named = set()          # sub-proposition ids named in some dictionary so far (tolerant mode)
         self.twin_pairs = []
+        self.shared = {}            # one dictionary object reused (cleared + refilled) by queries flagged "shared"
         self.n_derived = 0
         self.tolerated = 0
 
@@ -143,7 +144,7 @@ class Session:
         self._check_states(k)
 
     def _compare(self, e, q, what):
-        got = norm(hist.run_query(e.obj, q))
+        got = norm(hist.run_query(e.obj, q, self.shared))
         want = hist.ref().ask(e.prov, q)
         if got != want:
             raise Violation(f"{what} on object #{self.pool.index(e)} ({e.kind}) returns a result different from the same call on a "
@@ -253,6 +254,8 @@ def make_query(entry, kind_i, seeds, allow_compound, named, extra_rule, probe=Fa
     q = {"q": k}
     if k in ("evaluate", "evaluate_propositions", "assume"):
         q["i"] = make_interp(entry, seeds, allow_compound, named)
+        if seeds[5] % 2 == 0:
+            q["shared"] = True      # handed over in the session's one dictionary object, updated in place
     elif k == "to_ge_polyhedron":
         q["active"] = bool(seeds[0] % 2)
     elif k == "solve":
